@@ -68,6 +68,9 @@ def mk(kind="list", n: int = 2):
         return list(range(n))
     if kind == "dict":
         return {"k%d" % i: i for i in range(n)}
+    if kind == "udict":
+        # keys deliberately not in sorted order, one level nested (insertion order is part of what a dictionary is)
+        return {"zeta": 0, "alpha": {"y": n, "b": 1}, "mid": list(range(n))}
     if kind == "nested":
         return {"a": [1, {"b": list(range(n))}], "s": "x"}
     if kind == "df":
@@ -88,6 +91,9 @@ def mk(kind="list", n: int = 2):
         return [{"i": i, "l": [i]} for i in range(n)]
     if kind == "tuple":
         return tuple(range(n))
+    if kind == "tlist":
+        # an immutable container holding mutable ones
+        return tuple([i] for i in range(max(1, n)))
     if kind == "pairs":
         return [(i, str(i)) for i in range(n)]
     if kind == "set":
@@ -184,6 +190,10 @@ def ctxmut(x, name="mlist", context=None):
         v.append("ctx")
     elif isinstance(v, dict):
         v["ctx"] = 1
+    elif isinstance(v, set):
+        v.add("ctx")
+    elif isinstance(v, tuple) and v and isinstance(v[0], list):
+        v[0].append("ctx")
     return x
 
 
@@ -207,6 +217,10 @@ def mutvar(state, name):
         v.append("m")
     elif isinstance(v, dict):
         v["m"] = "m"
+    elif isinstance(v, set):
+        v.add("m")
+    elif isinstance(v, tuple) and v and isinstance(v[0], list):
+        v[0].append("m")
     return state
 
 
@@ -277,7 +291,9 @@ def setkey(x, k, v):
 def deepmut(x, v="deep"):
     """mutates, in place, an element nested inside the input (depth 2)"""
     _log("deepmut")
-    if isinstance(x, list) and x:
+    if isinstance(x, tuple) and x and isinstance(x[0], list):
+        x[0].append(v)
+    elif isinstance(x, list) and x:
         if isinstance(x[0], list):
             x[0].append(v)
         elif isinstance(x[0], dict):
